@@ -392,14 +392,24 @@ class Model:
                 name = ''
             from . import normalize
             tree = normalize.default_idiom(tree)
+            normalize.with_form(tree)
+            normalize.search_loops(tree)
             ref = _reference()
             if ref is not None and not os.environ.get('VERIF_NO_NORMALIZE'):
                 from . import inline
                 for c in normalize.fold_new_constants(tree, ref['module_names'].get(name)):
                     self.inlined.append('constant %s.%s read through' % (name, c))
+                for s_ in normalize.restore_staticmethods(tree, name, ref['functions']):
+                    self.inlined.append('module function read as the staticmethod %s.%s again' % (name, s_))
                 self.inlined += inline.apply(tree, name, ref['functions'], ref['locals'])
+                normalize.with_form(tree)
+                normalize.search_loops(tree)
+                is_new = normalize.new_local_test(tree, name, ref['locals'])
+                normalize.local_generators(tree, is_new)
+                normalize.builder_forms(tree, is_new)
                 for v in normalize.forward_new_locals(tree, name, ref['locals']):
                     self.inlined.append('local %s read through' % v)
+                normalize.with_form(tree)
             mi = ModuleInfo(name, rel, src, tree)
             mi.model = self
             self.modules[name] = mi
@@ -674,6 +684,23 @@ class Model:
         for st in init.node.body:
             top.add(id(st))
 
+        def sure(body):
+            got = set()
+            for st in body:
+                if isinstance(st, ast.Assign):
+                    for t in st.targets:
+                        for x in ([t] if not isinstance(t, (ast.Tuple, ast.List)) else t.elts):
+                            if isinstance(x, ast.Attribute) and isinstance(x.value, ast.Name) and \
+                                    x.value.id == selfname:
+                                got.add(x.attr)
+                elif isinstance(st, ast.If) and st.orelse:
+                    got |= sure(st.body) & sure(st.orelse)
+                elif isinstance(st, ast.With):
+                    got |= sure(st.body)
+                elif isinstance(st, (ast.Return, ast.Raise)):
+                    break
+            return got
+
         def rec(body, uncond):
             for st in body:
                 if isinstance(st, ast.Assign):
@@ -693,6 +720,10 @@ class Model:
                 elif isinstance(st, (ast.If,)):
                     rec(st.body, False)
                     rec(st.orelse, False)
+                    if uncond:
+                        # assigned in every arm of a complete if / elif / else: assigned
+                        for a in sure(st.body) & sure(st.orelse):
+                            out.setdefault(a, []).append((None, True, ci))
                 elif isinstance(st, (ast.For, ast.While)):
                     rec(st.body, False)
                     rec(st.orelse, False)
